@@ -267,9 +267,12 @@ fn replay(tpl_path: &str, cases_path: &str, out_path: &str) {
             table_bytes += p.sizes.0 + p.sizes.1 + p.sizes.2;
         }
     }
+    // a call into allsorts that does not return within two minutes is written to <out>.hang, exit 3 (vh::sup::Watchdog)
+    let wd = vh::sup::Watchdog::start(&format!("{}.hang", out_path), 120);
     for case in read_ndjson(cases_path) {
         n_cases += 1;
         let key = case["id"].to_string();
+        wd.enter(json!({"id": case["id"], "in": case["in"]}).to_string());
         let input = &case["in"];
         let exp = enc::arr(&case["exp"]);
         let report = |stage: &str, want: Value, got: Value, out: &mut NdWriter| {
@@ -367,6 +370,7 @@ fn replay(tpl_path: &str, cases_path: &str, out_path: &str) {
             n_mism += 1;
         }
     }
+    wd.done();
     out.finish();
     let mut s = serde_json::Map::new();
     for (k, v) in stats {
